@@ -195,5 +195,8 @@ def run(ctx: Ctx) -> None:
     from ..core import Alias
     from . import c16
 
+    from . import c15
+
+    c15.run(Alias(ctx, "C14.R9", "trio: connection handlers run in the nursery that is drained (deadline = graceful timeout) before lifespan.shutdown is sent, not in the lifespan nursery (C15.R2)", only={"C15.R2"}))
     c16.run(Alias(ctx, "C14.R8", "both workers realise the same lifespan skeletons (handle_lifespan, wait_for_startup/shutdown, asgi_send) and the same per-connection state copy (C16.R1/R2)", only={"C16.R1", "C16.R2"}, where=["lifespan", "TCPServer.run"]))
     ctx.assume("not decided: races between startup completion and lifespan task completion; connections queued in the kernel backlog of an inherited listening socket; that state.copy() is a sufficient (shallow) copy")
